@@ -403,7 +403,7 @@ def check(prop, tier, only=None, jobs=None):
         prepare_group(g)
     jobs = jobs or int(os.environ.get("VERIF_JOBS", "0") or 0) or min(14, os.cpu_count() or 4)
     results = []
-    # thorough tier: many multi-GB harnesses at once exhaust the machine (measured: 13 LRU history harnesses of
+    # many multi-GB harnesses at once exhaust the machine (measured: 13 LRU history harnesses of
     # ~7 M variables -> CBMC out of memory); schedule by expected peak memory (annotation ram=<GB>, default 3)
     import threading
     ram_budget = int(os.environ.get("VERIF_RAM_GB", "44"))
@@ -411,8 +411,6 @@ def check(prop, tier, only=None, jobs=None):
     ram_used = [0]
 
     def run_weighted(h):
-        if tier != "thorough":
-            return run_harness(h, tier)
         w = min(h.ram, ram_budget)
         with ram_cv:
             while ram_used[0] + w > ram_budget:
